@@ -168,14 +168,19 @@ func gen(r *verifsim.Rng, tier string) (any, hx.Sched) {
 			op.Mem = verifsim.Pick(r, []string{"a", "b", "c", "d", "d"})
 		} else {
 			op.Mem = verifsim.Pick(r, []string{"a", "b", "kw", "kwn"}) // kw, kwn: members whose type names BOTH parameters
+			if basicType(in.Args[0]) && basicType(in.Args[1]) && r.Intn(4) == 0 {
+				// cna / cnb: a G8 with the SAME type arguments constructed with NAMED arguments in the order (w, k);
+				// the tested value goes to k (cna) or to w (cnb), the other parameter gets a value of its own type
+				op.Mem = verifsim.Pick(r, []string{"cna", "cnb"})
+			}
 		}
-		if op.Mem == "ctor" {
+		if op.Mem == "ctor" || op.Mem == "cna" || op.Mem == "cnb" {
 			op.Args = in.Args
 		}
-		if op.Mem != "ctor" && r.Intn(12) == 0 {
+		if op.Mem != "ctor" && op.Mem != "cna" && op.Mem != "cnb" && r.Intn(12) == 0 {
 			op.Rep = verifsim.Pick(r, []int{40, 300, 300, 700})
 		}
-		if op.Mem != "ctor" && r.Intn(6) == 0 {
+		if op.Mem != "ctor" && op.Mem != "cna" && op.Mem != "cnb" && r.Intn(6) == 0 {
 			op.Via = verifsim.Pick(r, []string{"clone", "clone", "clone2", "arr"})
 		}
 		w.Ops = append(w.Ops, op)
@@ -286,6 +291,9 @@ class G3<T> extends Base3 {
 class G6<T> {
   public function __construct(public T $x) { }
 }
+class G8<K, W> {
+  public function __construct(public K $k, public W $w) { }
+}
 class C6int { public function __construct(public int $x) { } }
 class C6string { public function __construct(public string $x) { } }
 class C6array { public function __construct(public array $x) { } }
@@ -346,6 +354,13 @@ func renderOp(op Op, idx int) string {
 	if op.Mem == "ctor" {
 		// constructs a G6 with the SAME type arguments as the instance, passing the value to a promoted parameter
 		return fmt.Sprintf("__rec(\"w%d\", (function() { try { $x = new G6<%s>(%s); return \"A\"; } catch (\\Throwable $e) { return \"R\"; } })());\n", idx, strings.Join(op.Args, ", "), valueExpr[op.Val])
+	}
+	if op.Mem == "cna" || op.Mem == "cnb" {
+		kv, wv := valueExpr[op.Val], valueExpr[op.Args[1]]
+		if op.Mem == "cnb" {
+			kv, wv = valueExpr[op.Args[0]], valueExpr[op.Val]
+		}
+		return fmt.Sprintf("__rec(\"w%d\", (function() { try { $x = new G8<%s>(w: %s, k: %s); return \"A\"; } catch (\\Throwable $e) { return \"R\"; } })());\n", idx, strings.Join(op.Args, ", "), wv, kv)
 	}
 	fn := map[string]string{"p": "wp", "q": "wq", "u": "wu", "kw": "wkw", "kwn": "wkwn", "a": "wa", "b": "wb", "set": "wset", "put": "wput", "c": "wc", "d": "wd", "fill": "wfill", "made": "wmade", "pv": "wpv", "pw": "wpw", "tpv": "wtpv"}[op.Mem]
 	target := fmt.Sprintf("$o%d", op.Inst)
@@ -517,7 +532,7 @@ func exec(t *testing.T, x any, s hx.Sched) *hx.Outcome {
 			h, sOK := got[key], solo[key]
 			targ := in.Args[0]
 			switch op.Mem {
-			case "b":
+			case "b", "cnb":
 				targ = in.Args[1]
 			case "c":
 				targ = in.Args[2]
@@ -544,7 +559,7 @@ func exec(t *testing.T, x any, s hx.Sched) *hx.Outcome {
 			if op.Mem == "q" || op.Mem == "u" || op.Mem == "ctor" || op.Mem == "pv" || op.Mem == "pw" || op.Mem == "tpv" {
 				ckey = fmt.Sprintf("c.%s.%s.%s", op.Mem, targ, op.Val)
 			}
-			if op.Mem == "fill" || op.Mem == "made" || op.Mem == "kw" || op.Mem == "kwn" || cn(targ) != targ {
+			if op.Mem == "fill" || op.Mem == "made" || op.Mem == "kw" || op.Mem == "kwn" || op.Mem == "cna" || op.Mem == "cnb" || cn(targ) != targ {
 				// (capitalised scalar names: origami reads `String` as string in a property declaration but as
 				// a class named String in `?String`, in parameters and in type arguments — C07's subject; only the
 				// history oracle is applied to them)
@@ -565,6 +580,8 @@ func exec(t *testing.T, x any, s hx.Sched) *hx.Outcome {
 	}
 	return o
 }
+
+func basicType(t string) bool { return t == "int" || t == "string" || t == "array" || t == "U" }
 
 // isOf: is the generated value kind of the type named t (int, string, array, U)?
 func isOf(t, val string) bool {
@@ -591,11 +608,11 @@ func absolute(in Op, op Op) string {
 	var ts []string
 	nullable := false
 	switch op.Mem {
-	case "p", "put", "pv", "pw", "tpv", "ctor", "a":
+	case "p", "put", "pv", "pw", "tpv", "ctor", "a", "cna":
 		ts = []string{in.Args[0]}
 	case "q", "u":
 		ts, nullable = []string{in.Args[0]}, true
-	case "b":
+	case "b", "cnb":
 		ts = []string{in.Args[1]}
 	case "c":
 		ts = []string{in.Args[2]}
@@ -613,7 +630,7 @@ func absolute(in Op, op Op) string {
 			return ""
 		}
 	}
-	if op.Val == "null" && op.Mem == "ctor" {
+	if op.Val == "null" && (op.Mem == "ctor" || op.Mem == "cna" || op.Mem == "cnb") {
 		return "" // a promoted constructor PARAMETER: origami lets null through every typed parameter, generic or not (C07's subject)
 	}
 	if op.Val == "null" {
@@ -642,6 +659,8 @@ func memKind(m string) string {
 		return "two-parameter-union-property"
 	case "ctor":
 		return "constructor-parameter"
+	case "cna", "cnb":
+		return "named-constructor-parameter"
 	case "pv", "tpv":
 		return "private-property"
 	case "pw":
